@@ -9,7 +9,7 @@ from search.common import drive, keys_pool
 
 
 def gen(rng):
-    kind = rng.choice(["bloom", "bloom", "bloom-ondisk", "cbf", "cms"])
+    kind = rng.choice(["bloom", "bloom", "bloom-ondisk", "bloom-ondisk2", "cbf", "cms"])
     keys = keys_pool(rng, rng.randint(2, 16))
     return {"kind": kind, "est": rng.choice([1, 2, 3, 5, 10, 40]), "fpr": rng.choice([0.3, 0.1, 0.05, 0.01]), "est2": rng.choice([0, 0, 0, 1, 7]), "strat": rng.choice(["fnv", "md5", "custom"]),
             "strat2": rng.choice([None, None, None, "fnv", "sha256", "dint:sumlen", "firstsame", "firstsame"]), "a": [rng.choice(keys) for _ in range(rng.randint(0, 12))], "b": [rng.choice(keys) for _ in range(rng.randint(0, 12))], "keys": keys,
@@ -65,7 +65,9 @@ def check(case):
         cls = P.CountingBloomFilter if kind == "cbf" else P.BloomFilter
         try:
             a = cls(est_elements=case["est"], false_positive_rate=case["fpr"], hash_function=fn)
-            if kind == "bloom-ondisk":
+            if kind == "bloom-ondisk2":  # both operands on disk
+                a = P.BloomFilterOnDisk(os.path.join(tmp, "a.blm"), est_elements=case["est"], false_positive_rate=case["fpr"], hash_function=fn)
+            if kind in ("bloom-ondisk", "bloom-ondisk2"):
                 b = P.BloomFilterOnDisk(os.path.join(tmp, "b.blm"), est_elements=case["est"] + case["est2"], false_positive_rate=case["fpr"], hash_function=fn2)
             else:
                 b = cls(est_elements=case["est"] + case["est2"], false_positive_rate=case["fpr"], hash_function=fn2)
@@ -83,7 +85,7 @@ def check(case):
             ca, cb = a.elements_added, b.elements_added
             for name in ("union", "intersection", "jaccard_index"):
                 res = core.call(getattr(a, name), b)
-                res2 = core.call(getattr(b, name), a) if kind != "bloom-ondisk" or name != "x" else res
+                res2 = core.call(getattr(b, name), a)
                 now = (bytes(a.bloom[: a.bloom_length]) if kind != "cbf" else bytes(a.bloom), bytes(b.bloom[: b.bloom_length]) if kind != "cbf" else bytes(b.bloom), a.elements_added, b.elements_added)
                 if now != (sa, sb, ca, cb):
                     return f"{name} modified an operand"
@@ -120,7 +122,7 @@ def check(case):
                     if sa == sb and res[1] != 1.0:
                         return "Jaccard index of identical operands is not 1.0"
             # derived filters (results of set operations) are reachable states too
-            if compatible and kind != "bloom-ondisk":
+            if compatible and kind not in ("bloom-ondisk", "bloom-ondisk2"):
                 derived = [x for x in (a.intersection(b), a.union(b), cls(est_elements=case["est"], false_positive_rate=case["fpr"], hash_function=fn)) if x is not None]
                 pool = [a] + derived
                 for x in pool:
@@ -143,8 +145,10 @@ def check(case):
                 if core.call(getattr(a, name), "foreign") != ("err", "!TypeError"):
                     return f"{name} with a foreign type did not raise TypeError"
         finally:
-            if kind == "bloom-ondisk":
+            if kind in ("bloom-ondisk", "bloom-ondisk2"):
                 b.close()
+            if kind == "bloom-ondisk2":
+                a.close()
     return None
 
 
